@@ -435,6 +435,7 @@ package plush
 //@ func (t *Template) Parse
 //@ ensures ok: err == nil ==> t.program != nil
 //@ ensures same: old(t.program) != nil ==> t.program == old(t.program)
+//@ ensures failkeeps: err != nil ==> t.program == old(t.program)
 //@ errprop
 //@ assigns t.program, fresh
 
@@ -442,6 +443,7 @@ package plush
 //@ requires cctx: is(ctx, "*Context") && pay(ctx) != 0
 //@ ensures rendered: err == nil ==> trusted(result)
 //@ ensures empty: err != nil ==> result == ""
+//@ ensures progkeep: old(t.program) != nil ==> t.program == old(t.program)
 //@ errprop
 //@ assigns t.program, mapsof("map[string]interface{}"), fresh
 
@@ -451,6 +453,7 @@ package plush
 
 //@ func NewTemplate
 //@ ensures ok: fresh(result) && result.Input == input && (err == nil ==> result.program != nil)
+//@ ensures failnil: err != nil ==> result.program == nil
 //@ errprop
 //@ assigns fresh
 
